@@ -135,6 +135,70 @@ for name, build in COMPONENTS.items():
                     last[mm.group(1)] = mm.group(2).strip()
         bad = {t: {"reset": v, "power_up": decl[t]} for t, v in last.items() if t in decl and decl[t] != v}
         out["powerup"].append({"component": name, "async": is_async, "active_low": active_low, "reset_branches": len(branches), "reset_assignments": len(last), "mismatch": bad})
+
+
+# (c) ------------------------------------------------------------------------------------------------------------
+# a signal with a default that is connected to an INOUT port of an instance and driven by a context with reset: the instance does
+# not take the default away -- the declaration keeps its initial value and the reset branch assigns it
+class Pad(Entity, extern=True):
+    i = Port.input(Bit)
+    io = Port.inout(Bit)
+
+
+class InoutUser(Entity):
+    clk = Port.input(Bit)
+    rst = Port.input(Bit)
+    a = Port.input(Bit)
+    o = Port.output(Bit, default=False)
+
+    def architecture(self):
+        padline = Signal[Bit](False, name="padline")
+        Pad(i=self.a, io=padline)
+
+        @std.sequential(std.Clock(self.clk), std.Reset(self.rst))
+        def proc():
+            padline.next = self.a
+            self.o <<= padline
+
+
+try:
+    t = std.VhdlCompiler.to_string(InoutUser)
+    in_reset = [l for br in reset_branches(t) for l in br]
+    out["inout"] = {"declared_with_default": bool(re.search(r"signal padline : std_logic := '0';", t)), "reset_assigns_default": "padline <= '0';" in in_reset}
+except Exception as e:  # noqa: BLE001
+    out["inout"] = {"error": f"{type(e).__name__}: {str(e)[:120]}"}
+
+# (d) ------------------------------------------------------------------------------------------------------------
+# every clocked process of the AXI interconnect belongs to the reset domain of the master interface
+from cohdl import Null
+from cohdl.std.axi.axi4_light.interconnect import Interconnect
+
+
+class IcTop(axi.base_entity(addr_width=16, active_high_reset=True)):
+    def architecture(self):
+        ic = Interconnect(self.interface_connection())
+        slave = ic.reserve(0x100, 0x100, prefix="slv")
+
+        @std.concurrent
+        def slave_logic():
+            slave.rdaddr.ready <<= True
+            slave.rddata.valid <<= True
+            slave.rddata.rdata <<= Null
+            slave.rddata.rresp <<= Null
+            slave.wraddr.ready <<= True
+            slave.wrdata.ready <<= True
+            slave.wrresp.valid <<= True
+            slave.wrresp.bresp <<= Null
+
+
+try:
+    t = std.VhdlCompiler.to_string(IcTop)
+    procs = re.findall(r"(\w+): process\s*\(([^)]*)\)(.*?)end process;", t, flags=re.S)
+    clocked = [n for n, s, b in procs if "rising_edge" in b or "falling_edge" in b]
+    with_reset = [n for n, s, b in procs if ("rising_edge" in b or "falling_edge" in b) and "axi_reset" in b]
+    out["interconnect"] = {"clocked": clocked, "with_reset": with_reset}
+except Exception as e:  # noqa: BLE001
+    out["interconnect"] = {"error": f"{type(e).__name__}: {str(e)[:120]}"}
 print("RESULT" + json.dumps(out))
 '''
 
@@ -161,6 +225,19 @@ def reset_config_sweep(tier="quick", seed=0):
             return {"problems": [f"reset_config_sweep: {e['component']} (async={e['async']}, active_low={e['active_low']}): " + (e.get("error") or "no reset branch found in the emitted processes")]}
         elif e["mismatch"]:
             fails.setdefault(key, f"{e['component']} (async={e['async']}, active_low={e['active_low']}): after reset {e['mismatch']} (last assignment in the reset branch vs initial value of the declaration)")
+    for part in ("inout", "interconnect"):
+        n += 1
+        e = data.get(part) or {"error": "not evaluated"}
+        if "error" in e:
+            return {"problems": [f"reset_config_sweep: {part}: {e['error']}"]}
+    e = data["inout"]
+    if not (e["declared_with_default"] and e["reset_assigns_default"]):
+        fails.setdefault("inout-instance", f"a signal with a default connected to an inout port of an instance and driven by a context with reset: {e} (the instance must not take the default away)")
+    e = data["interconnect"]
+    if not e["clocked"]:
+        return {"problems": ["reset_config_sweep: no clocked process found in the interconnect design"]}
+    if sorted(e["clocked"]) != sorted(e["with_reset"]):
+        fails.setdefault("interconnect", f"clocked processes of the AXI interconnect {e['clocked']}, of these in the reset domain of the master interface: {e['with_reset']}")
     violations = []
     for key, what in sorted(fails.items()):
         oid = f"C04/reset-config-sweep[{key}]#bounded"
